@@ -63,6 +63,9 @@ pub struct Agg {
     pub by_family: BTreeMap<String, u64>,
     pub by_repr: BTreeMap<String, u64>,
     pub by_op: BTreeMap<String, u64>,
+    /// explicit call histories: runs by number of earlier calls, earlier calls by kind
+    pub pre_len: BTreeMap<String, u64>,
+    pub pre_kind: BTreeMap<String, u64>,
     pub certificates_ok: u64,
     pub states_checked: u64,
     pub runs_with_states: u64,
@@ -156,6 +159,16 @@ impl Agg {
         }
         if !spec.pre.is_empty() {
             bump(&mut self.perturb, "explicit_call_history");
+            bump(&mut self.pre_len, &format!("{:02}", spec.pre.len()));
+            for p in &spec.pre {
+                bump(&mut self.pre_kind, p.op.name());
+                if p.shuffle.is_some() {
+                    bump(&mut self.pre_kind, "renumbered");
+                }
+                if p.base == spec.base {
+                    bump(&mut self.pre_kind, "same_base_symbol_as_the_run");
+                }
+            }
         }
         if !spec.steer.is_empty() || spec.steer_min_beyond {
             bump(&mut self.perturb, "steered_requested");
